@@ -153,6 +153,10 @@ func scenarios(prop, tier string) []*Scenario {
 		// for a marked hash must not depend on the process having been restarted
 		r = append(r, &Scenario{Name: "genesis/marked-then-restart-without-save", Cfg: hdr.Config{MaxBranchDepth: 144}, N: pick(3, 4), Marks: 2, M: 2,
 			Maint: []hdr.Op{opSave, {K: "reload", L: "nosave"}}, Probes: true, Slots: []string{"a", "H"}})
+		// seven headers reach reorganisations between a branch of a branch and an unrelated later fork:
+		// a submission that the rules accept must be answered as accepted there too (no error after
+		// the header was taken in)
+		r = append(r, &Scenario{Name: "genesis/7-headers", Cfg: hdr.Config{MaxBranchDepth: 144}, N: 7, Slots: []string{"a", "H"}})
 		for _, s := range r {
 			s.oracles = []oracle{oracleC08verdict, oracleC08nochange}
 		}
@@ -266,6 +270,10 @@ func scenarios(prop, tier string) []*Scenario {
 			r = append(r, &Scenario{Name: "legacy-files-" + itoa(base+1) + "-headers", Cfg: hdr.Config{MaxBranchDepth: 144, Base: base, Legacy: true, Invalid: []string{hdr.BaseLabel(base) + "/a"}},
 				N: pick(3, 4), M: 2, Maint: []hdr.Op{opReload}, Attach: []int{0, -1}, Slots: []string{"a", "H"}, Probes: true})
 		}
+		// height is not work: a side branch of many light headers that is taller than the (heavier)
+		// best chain by more than the restart keeps, next to a short side branch near the best tip
+		r = append(r, &Scenario{Name: "genesis/tall-light-side-branch/restart-depth-3", Cfg: hdr.Config{MaxBranchDepth: 144}, N: 5, GrowXs: 1, GrowXBy: 6, M: 1,
+			Maint: []hdr.Op{{K: "reloadd", D: 3}}, Slots: []string{"a", "b", "Q"}})
 		// a small fork-depth limit with the full retained depth: side branches that end further below
 		// the tip than new forks may start are still held, still extendable, and must come back
 		r = append(r,
@@ -451,6 +459,10 @@ func scenarios(prop, tier string) []*Scenario {
 		// index still lists can then be heavier than everything that is left
 		r = append(r, &Scenario{Name: "genesis/crash-in-clean-save-after-mark", Cfg: hdr.Config{MaxBranchDepth: 144}, N: pick(4, 5), Marks: 1, MarkOnlyKnown: true, M: 2,
 			Maint: []hdr.Op{opClean, opSave}})
+		// the same with six headers over two unit-work slots: a branch of a side branch next to the
+		// marked chain (what the old index lists after the stop hangs off a branch that is dropped)
+		r = append(r, &Scenario{Name: "genesis/crash-in-clean-save-after-mark/6-headers-slots-a-b", Cfg: hdr.Config{MaxBranchDepth: 144}, N: 6, Marks: 1, MarkOnlyKnown: true, M: 2,
+			Maint: []hdr.Op{opClean, opSave}, Slots: []string{"a", "b"}})
 		for _, s := range r {
 			s.oracles = []oracle{oracleC12}
 		}
